@@ -21,6 +21,8 @@ CLAIMED = {
     "C07": ("§5 C07", "SSA symbolic execution + SMT: every producing operation from inputs with symbolic keys / copy-on-write flags / shared clone sources, followed by one symbolic mutation of one participant; all other bitmaps compared cell-by-cell with representation snapshots; argument slices compared; Par* under one deterministic goroutine schedule"),
     "C08": ("§5 C08", "SSA symbolic execution + SMT with a write-protected caller buffer (any store into it traps in the VM): zero-copy loads followed by call strings of all mutators / in-place set operations / derived bitmaps; detach then scribble over the buffer"),
     "C16": ("§5 C16", "SSA symbolic execution + SMT: AddOffset/AddOffset64 with symbolic signed offsets (pointwise shifted membership + cardinality), static Flip vs description and vs in-place Flip, ToDense/WriteDenseTo/DenseSize bitwise, FromDense for word-slice lengths around 1024 with write-protected caller words when not copied"),
+    "C17": ("§5 C17", "SSA symbolic execution + SMT on package roaring64 over the REAL 32-bit layer: set algebra (static/in-place/self), point/bulk/range mutation across 2^32 boundaries, queries, iterators, aggregates (ParOr under one schedule) against a plain-set model of uint64 with free probes; value-semantics step after each algebra op"),
+    "C18": ("§5 C18", "SSA symbolic execution + SMT: 64-bit WriteTo/ToBytes/MarshalBinary -> ReadFrom/FromUnsafeBytes/UnmarshalBinary round trips with byte accounting, every proper prefix, fully symbolic byte strings and corrupted bucket count / key / inner header (panic, out-of-buffer and oversized-allocation sites are obligations)"),
     "C09": ("§5 C09", "SSA symbolic execution + SMT: invariant-only mode of the C01/C02 harness families from states satisfying the full invariant; wf(result) and the real Validate()==nil asserted after every operation"),
     "C10": ("§5 C10", "SSA symbolic execution + SMT: every decoder on FULLY symbolic byte strings of every length up to the bound (every Go panic / out-of-buffer access / oversized allocation is a proof obligation; attacker-sized buffers are modelled lazily), every proper prefix of valid streams, V=>I on unconstrained representations, MustReadFrom vs ReadFrom"),
     "C11": ("§5 C11", "SSA symbolic execution + SMT: the eight aggregates on lists of symbolic bitmaps (empty, singleton, duplicate objects, empty members; keys over the whole key space incl. 0xFFFF) against the pointwise fold; Par* with worker counts 0..3 under one deterministic goroutine schedule"),
